@@ -308,7 +308,7 @@ def order_rule(rep, fname, E, J, N, m, sz, lt, where, axes, line, tier):
         extra = [l for l in leaves if l.op != 'const' and l not in vars_ and l.id not in pinned]
         if extra:
             rep.ob('%s<%s>#order%s' % (fname, E, ''.join('xyz'[k] for k in axes)), 'R14.order', UNDECIDED, 'unexpected compared value %s' % T.show(extra[0], 3)[:120], where); return
-        consts = [l for l in leaves if l.op == 'const' and l.ty != 'i1' and l is not TMAX and l is not NTMAX]
+        consts = list({l.id: l for l in leaves if l.op == 'const' and l.ty != 'i1' and l is not TMAX and l is not NTMAX}.values())
         if zero not in consts: consts.append(zero)
         def prem(env):
             for k, st in zip(axes, combo):
@@ -475,7 +475,7 @@ def main(rep, ws, tier):
             # ---- R14.order
             line = (name == 'w_fee')
             order_rule(rep, fname, E, spec[(0, 1)], N, m, sz, lt, where, (0, 1), line, tier)
-            if tier != 'quick':
+            if True:
                 full = specialise(J, N, (0, 1, 2), lt)
                 order_rule(rep, fname, E, list(full.args), N, m, sz, lt, where, (0, 1, 2), line, tier)
             # ---- R14.par / R14.inside
@@ -508,6 +508,10 @@ def main(rep, ws, tier):
                 try: same = T.equiv(a_, b_, 400000)
                 except OverflowError: same = None
             rep.ob('intersects(box,ray)<%s>' % E, 'R14.wrap', HOLDS if same else (UNDECIDED if same is None else VIOLATED), 'same boolean as intersects(box,ray,ip)' if same else 'differs from the three-argument form', fn_where(S2.fn))
-    rep.floor('ray-box obligations', len(rep.obs), 18 * len(types))
-    rep.assumptions += ['the specialised rays (one or two non-zero direction components, origin inside the other slabs) reach every one of the 12 per-face blocks', 'reflection compared over the reals (negation normal form)']
-    rep.undecided_clauses += ['that the template block itself is the correct slab test (geometry): the check shows that if one block is right, all twelve are', 'an identical edit applied to all twelve blocks']
+    rep.floor('ray-box obligations', len(rep.obs), 26 * len(types))
+    rep.assumptions += ['the specialised rays (one or two non-zero direction components, origin inside the other slabs) reach every one of the 12 per-face blocks',
+                        'reflection compared up to the sign of zeros (negation normal form)',
+                        'R14.order: NaN-free inputs; the per-face quotients are abstract ordered values (monotone rounding of (min-pos)/dir <= (max-pos)/dir is taken as tf <= tb), clamp is an opaque callee']
+    rep.undecided_clauses += ['closeness of the quotients and of pos + t*dir to the exact rational values (rounding), i.e. "on the ray to within rounding"',
+                              'all-negative / mixed-sign direction octants are covered through R14.refl per block, not by a separate ordering enumeration',
+                              'line-box overflow regimes (guard false) of findEntryAndExitPoints are covered by R14.par/R14.axes only']
